@@ -33,6 +33,11 @@ Lemma keeps_pres {A X} (f : world -> X) (Q : X -> Prop) (c : M A) :
   pres f c -> keeps (fun w => Q (f w)) c.
 Proof. intros H w Hw. now rewrite H. Qed.
 
+(* reading the world: the continuation runs in the world it was given *)
+Lemma keeps_bind_getw {B} (I : world -> Prop) (k : world -> M B) :
+  (forall w0, I w0 -> forall w, w = w0 -> I (rw (k w0 w))) -> keeps I (bind getw k).
+Proof. intros H w Hw. rewrite bind_unfold. cbn. apply (H w Hw w eq_refl). Qed.
+
 Ltac keeps_step :=
   match goal with
   | |- keeps _ (bind _ _) => apply keeps_bind; [|intros ?]
@@ -66,31 +71,22 @@ Lemma state_set_st s w : st (rw (state_set s w)) = s.
 Proof. unfold state_set. cbn. destruct (s =? ST_ACTIVE); reflexivity. Qed.
 
 (* send_msg changes the state only from NETWORK_CONN_ESTABLISHED (to LOGON_INITIAL_SENT) *)
+Lemma send_gate_st m w :
+  st (rw (send_gate m w w)) = st w \/ (st w = ST_NCE /\ st (rw (send_gate m w w)) = ST_LOGON_SENT).
+Proof.
+  unfold send_gate.
+  destruct (st w <? ST_NCE) eqn:E1; [left; reflexivity|].
+  destruct (st w =? ST_NCE) eqn:E2.
+  - destruct (mkind m); try (left; reflexivity); right; (split; [lia | reflexivity]).
+  - destruct (_ && _ && _); left; reflexivity.
+Qed.
+
 Lemma send_msg_st c m w :
   st (rw (send_msg c m w)) = st w \/ (st w = ST_NCE /\ st (rw (send_msg c m w)) = ST_LOGON_SENT).
 Proof.
-  assert (Hp : forall w0 : world,
-             st (rw ((match mkind m, treq w with KTestReq, None => raise XConn | _, _ => ret tt end ;;;
-                      sm <- encode c m ;; w1 <- getw ;; (if wr w1 then ret tt else raise XAttribute) ;;;
-                      emit (Wire (snd sm)) ;;; persist_out (fst sm) (snd sm)) w0)) = st w0).
-  { intros w0.
-    assert (He : pres st (encode c m)) by (apply encode_pres; ins_solve).
-    assert (Hq : forall a b, pres st (persist_out a b)) by (intros; apply persist_out_pres; ins_solve).
-    assert (pres st (match mkind m, treq w with KTestReq, None => raise XConn | _, _ => ret tt end ;;;
-                      sm <- encode c m ;; w1 <- getw ;; (if wr w1 then ret tt else raise XAttribute) ;;;
-                      emit (Wire (snd sm)) ;;; persist_out (fst sm) (snd sm))) as H; [|apply H].
-    pres_tac; auto. }
-  unfold send_msg. rewrite bind_unfold. cbn [getw rv rw re].
-  rewrite bind_unfold.
-  destruct (st w <? ST_NCE) eqn:E1; cbn [raise rv rw]; [left; reflexivity|].
-  destruct (st w =? ST_NCE) eqn:E2.
-  - destruct (mkind m) eqn:Ek; cbn [raise rv rw]; try (left; reflexivity).
-    + rewrite bind_unfold. cbn [rv rw re state_set modw emit bind]. cbn.
-      right. split; [lia|]. rewrite Hp. reflexivity.
-    + rewrite bind_unfold. cbn [rv rw re state_set modw emit bind]. cbn.
-      right. split; [lia|]. rewrite Hp. reflexivity.
-  - destruct (_ && _ && _); cbn [raise ret rv rw]; [left; reflexivity|].
-    left. rewrite Hp. reflexivity.
+  assert (Ht : forall w0, pres st (send_tail c m w0)) by (intros; apply send_tail_pres; ins_solve).
+  unfold send_msg. rewrite bind_unfold. cbn [getw rv rw re]. rewrite bind_unfold.
+  destruct (rv (send_gate m w w)); cbn [rv rw]; [rewrite Ht|]; apply send_gate_st.
 Qed.
 
 Lemma send_msg_keeps_st c m (Q : Z -> Prop) :
@@ -132,11 +128,12 @@ Proof.
   intros Hds. unfold disconnect. rewrite bind_unfold. cbn [getw rv rw re].
   destruct (st w <=? ST_DISC_BROKEN) eqn:E; [intros _; cbn; unfold dead; lia|].
   destruct (ds <=? ST_DISC_BROKEN) eqn:E2; [|lia].
-  rewrite !bind_unfold. cbn [ret rv rw re modw].
-  match goal with |- context [match ?lmc with Some s => send_msg c ?mm | None => ret tt end ?ww] =>
-    set (snd_ := match lmc with Some s => send_msg c mm | None => ret tt end ww) end.
-  destruct (rv snd_); [|discriminate].
-  cbn. intros _. unfold dead. rewrite state_set_st. exact Hds.
+  destruct lm as [s|].
+  - rewrite bind_unfold. cbn [ret rv rw re]. rewrite bind_unfold. cbn [modw rv rw re].
+    rewrite bind_unfold.
+    destruct (rv (send_msg c _ _)); [|discriminate].
+    cbn [rv rw re]. intros _. unfold dead. cbn. destruct (ds =? ST_ACTIVE); cbn; exact Hds.
+  - intros _. cbn. unfold dead. destruct (ds =? ST_ACTIVE); cbn; exact Hds.
 Qed.
 
 Lemma disconnect_none_dead c ds w : ds <= ST_DISC_BROKEN -> dead (rw (disconnect c ds None w)).
@@ -164,44 +161,36 @@ Lemma get_T16_wire c seq v tags :
 Proof. reflexivity. Qed.
 
 (* the Wire events of send_msg: none, or exactly the encoded message *)
+Lemma send_tail_wires c m w0 w :
+  wires (re (send_tail c m w0 w)) = [] \/
+  exists seq, wires (re (send_tail c m w0 w)) = [mkMsg (mtype m) (wire_tags c seq m)].
+Proof.
+  unfold send_tail. rewrite bind_unfold.
+  destruct (match mkind m, treq w0 with KTestReq, None => raise XConn | _, _ => ret tt end w) as [r1 w1 e1] eqn:E1.
+  assert (He1 : e1 = [] /\ w1 = w).
+  { destruct (mkind m), (treq w0); cbn in E1; inversion E1; auto. }
+  destruct He1; subst e1 w1. cbn [rv rw re]. destruct r1; cbn [rv rw re]; [|left; reflexivity].
+  cbn [app]. rewrite bind_unfold.
+  unfold encode. destruct (raw_seq m).
+  - destruct (get T34 (mtags m)); [|left; reflexivity]. destruct (py_int s); [|left; reflexivity].
+    msimp. destruct (wr w); msimp; [|left; reflexivity].
+    right. exists z. cbn [wires].
+    rewrite (wires_nil _ (persist_out_allev not_wire _ _ _)). reflexivity.
+  - msimp.
+    destruct (wr (set_nout (nout w + 1) w)) eqn:Ew; msimp; [|left; reflexivity].
+    right. exists (nout w). cbn [wires].
+    rewrite (wires_nil _ (persist_out_allev not_wire _ _ _)). reflexivity.
+Qed.
+
 Lemma send_msg_wires c m w :
   wires (re (send_msg c m w)) = [] \/
   exists seq, wires (re (send_msg c m w)) = [mkMsg (mtype m) (wire_tags c seq m)].
 Proof.
-  unfold send_msg. rewrite bind_unfold. cbn [getw rv rw re app].
-  rewrite bind_unfold.
-  set (gate := (if st w <? ST_NCE then raise XConn else _) w).
-  assert (Hg : wires (re gate) = []).
-  { apply wires_nil. subst gate.
-    assert (allev not_wire (if st w <? ST_NCE then @raise unit XConn
-       else if st w =? ST_NCE then match mkind m with
-            | KLogon | KLogout => state_set ST_LOGON_SENT ;;; modw (set_role ROLE_INITIATOR)
-            | _ => raise XConn end
-       else if (role w =? ROLE_INITIATOR) && (st w =? ST_LOGON_SENT)
-               && negb match mkind m with KLogout => true | _ => false end
-            then raise XConn else ret tt)) as H; [|apply H].
-    assert (allev not_wire (state_set ST_LOGON_SENT)) by (apply state_set_allev; exact I).
-    allev_tac; auto. }
-  destruct (rv gate); cbn [rv rw re]; [|left; exact Hg].
-  rewrite wires_app, Hg. cbn [app].
-  rewrite bind_unfold.
-  destruct (match mkind m, treq w with KTestReq, None => raise XConn | _, _ => ret tt end (rw gate)) as [r1 w1 e1] eqn:E1.
-  assert (He1 : e1 = []).
-  { destruct (mkind m), (treq w); cbn in E1; inversion E1; reflexivity. }
-  subst e1. cbn [rv rw re]. destruct r1; cbn [rv rw re]; [|left; reflexivity].
-  cbn [app]. rewrite bind_unfold.
-  unfold encode. destruct (raw_seq m).
-  - destruct (get T34 (mtags m)); [|left; reflexivity]. destruct (py_int s); [|left; reflexivity].
-    cbn [ret rv rw re app]. rewrite !bind_unfold. cbn [getw rv rw re app].
-    destruct (wr w1); cbn [ret raise rv rw re app]; [|left; reflexivity].
-    rewrite !bind_unfold. cbn [emit rv rw re app snd fst].
-    right. exists z. rewrite wires_app. cbn.
-    rewrite (wires_nil _ (persist_out_allev not_wire _ _ _)). reflexivity.
-  - rewrite !bind_unfold. cbn [getw modw ret rv rw re app snd fst].
-    destruct (wr (set_nout (nout w1 + 1) w1)) eqn:Ew; cbn [ret raise rv rw re app]; [|left; reflexivity].
-    cbn. rewrite Ew. cbn.
-    right. exists (nout w1).
-    rewrite (wires_nil _ (persist_out_allev not_wire _ _ _)). reflexivity.
+  unfold send_msg. rewrite bind_unfold. cbn [getw rv rw re app]. rewrite bind_unfold.
+  assert (Hg : wires (re (send_gate m w w)) = []).
+  { apply wires_nil. apply send_gate_allev. exact I. }
+  destruct (rv (send_gate m w w)); cbn [rv rw re]; [|left; exact Hg].
+  rewrite wires_app, Hg. cbn [app]. apply send_tail_wires.
 Qed.
 
 Record cg_spec (c : cfg) (n : Z) (w : world) (r : res bool) : Prop := mkCG {
@@ -225,24 +214,989 @@ Proof.
   set (m := mkMsg MT_RESENDREQUEST [(T7, z_to_dec (nin w)); (T16, S_0)]).
   rewrite !bind_unfold. cbn [modw rv rw re app].
   set (w1 := set_maxres n w).
-  destruct (rv (send_msg c m w1)) eqn:Esend; cbn [rv rw re app].
-  - (* sent *)
-    constructor; cbn [rv rw re]; try discriminate.
-    + intros _. lia.
-    + rewrite !resends_app. cbn [ret re]. unfold resends at 2 3. cbn [state_set].
-      rewrite (resends_nil (re (state_set ST_AWAITING _))).
-      2:{ apply state_set_allev. exact I. }
-      rewrite !app_nil_r.
-      destruct (send_msg_wires c m w1) as [Hw|[seq Hw]]; unfold resends; rewrite Hw; cbn; [left; reflexivity|].
-      right. eexists. split; [reflexivity|]. repeat split; try lia; try reflexivity.
-      assert (Hm : pres maxres (send_msg c m)) by (apply send_msg_pres; ins_solve).
-      assert (Hs : pres maxres (state_set ST_AWAITING)) by (apply state_set_pres; ins_solve).
-      rewrite Hs, Hm. reflexivity.
-    + intros _. apply state_set_st.
+  assert (Hm : maxres (rw (send_msg c m w1)) = n).
+  { assert (Hp : pres maxres (send_msg c m)) by (apply send_msg_pres; ins_solve). now rewrite Hp. }
+  pose proof (send_msg_wires c m w1) as Hw.
+  destruct (send_msg c m w1) as [r ws es]. cbn [rv rw re] in *.
+  assert (Hr : resends es = [] \/ exists rr, resends es = [rr] /\ get T7 (mtags rr) = Some (z_to_dec (nin w))
+                                            /\ get T16 (mtags rr) = Some S_0).
+  { unfold resends. destruct Hw as [Hw|[seq Hw]]; rewrite Hw; cbn; [left; reflexivity|].
+    right. eexists. split; [reflexivity|]. split; reflexivity. }
+  destruct r; cbn.
   - constructor; cbn [rv rw re]; try discriminate.
-    + rewrite app_nil_r.
-      destruct (send_msg_wires c m w1) as [Hw|[seq Hw]]; unfold resends; rewrite Hw; cbn; [left; reflexivity|].
-      right. eexists. split; [reflexivity|]. repeat split; try lia; try reflexivity.
-      assert (Hm : pres maxres (send_msg c m)) by (apply send_msg_pres; ins_solve).
-      rewrite Hm. reflexivity.
+    + intros _. lia.
+    + rewrite !resends_app. unfold resends at 2 3. cbn. rewrite !app_nil_r.
+      destruct Hr as [Hr|[rr [Hr [H7 H16]]]]; [left; exact Hr|].
+      right. exists rr. repeat split; auto; try lia.
+    + intros _. reflexivity.
+  - constructor; cbn [rv rw re]; try discriminate.
+    destruct Hr as [Hr|[rr [Hr [H7 H16]]]]; [left; exact Hr|].
+    right. exists rr. repeat split; auto; lia.
 Qed.
+
+(* ------------------------------------------------------------------ pre_handlers *)
+
+Lemma logon_not_resend tags : is_resend (mkMsg MT_LOGON tags) = false. Proof. reflexivity. Qed.
+Lemma logout_not_resend tags : is_resend (mkMsg MT_LOGOUT tags) = false. Proof. reflexivity. Qed.
+Lemma heartbeat_not_resend tags : is_resend (mkMsg MT_HEARTBEAT tags) = false. Proof. reflexivity. Qed.
+Lemma seqreset_not_resend tags : is_resend (mkMsg MT_SEQUENCERESET tags) = false. Proof. reflexivity. Qed.
+
+Lemma pre_handlers_not_app c m w0 : allev not_app (pre_handlers c m w0).
+Proof.
+  unfold pre_handlers. allev_step.
+  { destruct (st w0 =? ST_NCE); [|allev_tac]. allev_step; [apply state_set_allev; exact I|allev_tac]. }
+  destruct (mkind m); try solve [allev_tac].
+  - apply process_logon_allev; cbn; auto.
+  - apply process_seqreset_allev.
+  - apply process_logout_allev; cbn; auto.
+Qed.
+
+Lemma pre_handlers_not_resend c m w0 : allev not_resend (pre_handlers c m w0).
+Proof.
+  unfold pre_handlers. allev_step.
+  { destruct (st w0 =? ST_NCE); [|allev_tac]. allev_step; [apply state_set_allev; exact I|allev_tac]. }
+  destruct (mkind m); try solve [allev_tac].
+  - apply process_logon_allev; cbn; auto.
+  - apply process_seqreset_allev.
+  - apply process_logout_allev; cbn; auto.
+Qed.
+
+Lemma pre_handlers_nin c m w0 : mkind m <> KSeqReset -> pres nin (pre_handlers c m w0).
+Proof.
+  intros Hk. unfold pre_handlers. pres_step.
+  { destruct (st w0 =? ST_NCE); [|pres_tac]. pres_step; [apply state_set_pres; ins_solve|pres_tac]. }
+  destruct (mkind m); try solve [pres_tac]; try congruence.
+  - apply process_logon_pres; ins_solve.
+  - apply process_logout_pres; ins_solve.
+Qed.
+
+Lemma pre_handlers_aw c m w0 :
+  st w0 <> ST_NCE -> mkind m <> KLogon -> keeps aw_or_dead (pre_handlers c m w0).
+Proof.
+  intros H6 Hk. unfold pre_handlers. keeps_step.
+  { destruct (st w0 =? ST_NCE) eqn:E; [lia|keeps_tac]. }
+  destruct (mkind m); try solve [keeps_tac]; try congruence.
+  - apply (keeps_pres st (fun s => s = ST_AWAITING \/ s <= ST_DISC_BROKEN)).
+    apply process_seqreset_pres; ins_solve.
+  - intros w _. right. apply process_logout_dead.
+Qed.
+
+Lemma pre_handlers_logout_dead c m w0 w : mkind m = KLogout -> dead (rw (pre_handlers c m w0 w)).
+Proof.
+  intros Hk. unfold pre_handlers. rewrite bind_unfold. rewrite Hk.
+  set (A := (if st w0 =? ST_NCE then state_set ST_LOGON_RECV ;;; modw (set_role ROLE_ACCEPTOR) else ret tt) w).
+  assert (HA : rv A = inl tt) by (subst A; destruct (st w0 =? ST_NCE); reflexivity).
+  rewrite HA. cbn [rv rw re]. apply process_logout_dead.
+Qed.
+
+(* ------------------------------------------------------------------ gap_check *)
+
+Record gc_spec (c : cfg) (m : msg) (w : world) (r : res (option bool)) : Prop := mkGC {
+  gc_true : rv r = inl (Some true) ->
+            exists n, get_int T34 m = inl n /\ n <= nin w /\ rw r = w /\ re r = [] /\ ~ dead w;
+  gc_false : rv r = inl (Some false) -> st (rw r) = ST_AWAITING;
+  gc_resend : resends (re r) = [] \/
+              (exists rr, resends (re r) = [rr] /\ st w <> ST_AWAITING
+                          /\ get T7 (mtags rr) = Some (z_to_dec (nin w)) /\ get T16 (mtags rr) = Some S_0
+                          /\ rv r <> inl (Some true) /\ ~ dead w);
+  gc_nin : nin (rw r) = nin w;
+  gc_apps : apps (re r) = [];
+  gc_aw : aw_or_dead w -> aw_or_dead (rw r)
+}.
+
+Lemma check_gaps_nin c n : pres nin (check_gaps c n).
+Proof. apply check_gaps_pres; ins_solve. Qed.
+
+Lemma check_gaps_not_app c n : allev not_app (check_gaps c n).
+Proof. apply check_gaps_allev; cbn; auto. Qed.
+
+Lemma check_gaps_aw c n : keeps aw_or_dead (check_gaps c n).
+Proof.
+  unfold check_gaps. keeps_step; [keeps_tac|]. destruct (nin a <? n); [|keeps_tac].
+  keeps_step; [|keeps_tac]. destruct (negb _); [|keeps_tac].
+  keeps_step; [apply keeps_modw; intros w H; exact H|].
+  keeps_step; [apply send_msg_keeps_aw|].
+  intros w _. left. apply state_set_st.
+Qed.
+
+Lemma gap_check_spec c m w : gc_spec c m w (gap_check c m w).
+Proof.
+  unfold gap_check. rewrite bind_unfold. cbn [getw rv rw re app].
+  destruct (st w <=? ST_DISC_BROKEN) eqn:Ed.
+  { cbn. constructor; cbn; try discriminate; auto. }
+  rewrite bind_unfold. destruct (get_int T34 m) as [n|x] eqn:En; cbn [lift ret raise rv rw re app].
+  2:{ constructor; cbn; try discriminate; auto. }
+  rewrite bind_unfold.
+  pose proof (check_gaps_spec c n w) as [Ht Hf Hr Hs].
+  pose proof (check_gaps_nin c n w) as Hn.
+  pose proof (apps_nil _ (check_gaps_not_app c n w)) as Ha.
+  pose proof (check_gaps_aw c n w) as Haw.
+  destruct (check_gaps c n w) as [rb wb eb]. cbn [rv rw re] in *.
+  destruct rb as [b|x]; cbn [ret rv rw re].
+  - rewrite app_nil_r. constructor; cbn [rv rw re]; auto.
+    + intros Hb. assert (b = true) by congruence. subst b.
+      destruct (Ht eq_refl) as [H1 [H2 H3]]. exists n. repeat split; auto. unfold dead. lia.
+    + intros Hb. assert (b = false) by congruence. subst b. auto.
+    + destruct Hr as [Hr|[rr [Hr [H1 [H2 [H3 [H4 H5]]]]]]]; [left; exact Hr|].
+      right. exists rr. repeat split; auto; [|unfold dead; lia]. intros Hb.
+      assert (b = true) by congruence. subst b. destruct (Ht eq_refl) as [_ [_ He]].
+      subst eb. discriminate.
+  - constructor; cbn [rv rw re]; auto; try discriminate.
+    destruct Hr as [Hr|[rr [Hr [H1 [H2 [H3 [H4 H5]]]]]]]; [left; exact Hr|].
+    right. exists rr. repeat split; auto; [discriminate|unfold dead; lia].
+Qed.
+
+(* ------------------------------------------------------------------ part1 *)
+
+Record p1_spec (c : cfg) (m : msg) (w : world) (r : res (option bool)) : Prop := mkP1 {
+  p1_true : rv r = inl (Some true) ->
+            exists n, get_int T34 m = inl n /\ n <= nin (rw r) /\ mkind m <> KLogout /\ ST_NCE <= st w /\ ~ dead (rw r);
+  p1_resend : resends (re r) = [] \/
+              (exists rr, resends (re r) = [rr] /\ (st w <> ST_AWAITING \/ mkind m = KLogon)
+                          /\ get T7 (mtags rr) = Some (z_to_dec (nin (rw r))) /\ get T16 (mtags rr) = Some S_0
+                          /\ rv r <> inl (Some true));
+  p1_nin : mkind m <> KSeqReset -> nin (rw r) = nin w;
+  p1_apps : apps (re r) = [];
+  p1_aw : st w = ST_AWAITING -> mkind m <> KLogon -> aw_or_dead (rw r);
+  p1_false : rv r = inl (Some false) -> st (rw r) = ST_AWAITING
+}.
+
+Lemma part1_spec c m w : p1_spec c m w (part1 c m w).
+Proof.
+  unfold part1. rewrite bind_unfold. cbn [getw rv rw re app].
+  destruct (st w <? ST_NCE) eqn:E6.
+  { cbn. constructor; cbn; try discriminate; auto. intros H. left. exact H. }
+  destruct ((st w =? ST_NCE) && negb match mkind m with KLogon => true | _ => false end) eqn:Enl.
+  { (* first message is not a Logon *)
+    rewrite bind_unfold.
+    assert (Hd : allev (fun e => not_app e /\ not_resend e) (disconnect c ST_DISC_BROKEN None))
+      by (apply disconnect_none_allev; cbn; auto).
+    assert (Hn : pres nin (disconnect c ST_DISC_BROKEN None)) by (apply disconnect_pres; ins_solve).
+    specialize (Hd w). specialize (Hn w).
+    assert (Ha : apps (re (disconnect c ST_DISC_BROKEN None w)) = []).
+    { apply apps_nil. eapply Forall_impl; [|exact Hd]. cbn. tauto. }
+    assert (Hr : resends (re (disconnect c ST_DISC_BROKEN None w)) = []).
+    { apply resends_nil. eapply Forall_impl; [|exact Hd]. cbn. tauto. }
+    destruct (disconnect c ST_DISC_BROKEN None w) as [rd wd ed]. cbn [rv rw re] in *.
+    destruct rd; cbn [ret rv rw re]; rewrite ?app_nil_r; constructor; cbn [rv rw re]; auto; try discriminate.
+    - intros Hs. apply andb_true_iff in Enl. stlia.
+    - intros Hs. apply andb_true_iff in Enl. stlia. }
+  rewrite bind_unfold.
+  pose proof (pre_handlers_not_app c m w w) as Hpa. apply apps_nil in Hpa.
+  pose proof (pre_handlers_not_resend c m w w) as Hpr. apply resends_nil in Hpr.
+  pose proof (fun Hk => pre_handlers_nin c m w Hk w) as Hpn.
+  pose proof (fun a b H => pre_handlers_aw c m w a b w H) as Hpw.
+  pose proof (pre_handlers_logout_dead c m w w) as Hlo.
+  destruct (pre_handlers c m w w) as [rp wp ep] eqn:Ep. cbn [rv rw re] in *.
+  destruct rp as [[]|x]; cbn [rv rw re].
+  2:{ constructor; cbn [rv rw re]; auto; try discriminate.
+      intros Hs Hk. apply Hpw; auto; [stlia|]. left. exact Hs. }
+  pose proof (gap_check_spec c m wp) as [Gt Gf Gr Gn Ga Gw].
+  destruct (gap_check c m wp) as [rg wg eg]. cbn [rv rw re] in *.
+  constructor; cbn [rv rw re].
+  - intros Hs. destruct (Gt Hs) as [n [H1 [H2 [H3 [H4 H5]]]]]. exists n. subst wg. repeat split; auto; try lia.
+  - rewrite resends_app, Hpr. cbn [app].
+    destruct Gr as [Gr|[rr [Gr [H1 [H2 [H3 [H4 H5]]]]]]]; [left; exact Gr|].
+    right. exists rr. repeat split; auto; [|now rewrite Gn].
+    destruct (Z.eq_dec (st w) ST_AWAITING) as [Es|Es]; [|left; exact Es].
+    right. destruct (mkind m) eqn:Ek; auto; exfalso;
+      (assert (Haw : aw_or_dead wp) by (apply Hpw; [stlia | congruence | left; exact Es]));
+      destruct Haw as [Haw|Haw]; auto.
+  - intros Hk. rewrite Gn. apply (Hpn Hk).
+  - rewrite apps_app, Hpa, Ga. reflexivity.
+  - intros Hs Hk. apply Gw. apply Hpw; auto; [stlia|]. left. exact Hs.
+  - exact Gf.
+Qed.
+
+(* ------------------------------------------------------------------ dispatch *)
+
+Definition delivers (m : msg) : bool :=
+  match mkind m with KApp | KLogout => true | _ => false end.
+
+Lemma dispatch_apps c m v w :
+  apps (re (dispatch c m v w)) = if v && delivers m then [m] else [].
+Proof.
+  unfold dispatch, delivers. destruct (mkind m) eqn:Ek; rewrite ?andb_false_r; cbn [ret re apps];
+    try reflexivity.
+  - destruct v; reflexivity.
+  - apply apps_nil. apply process_resend_allev; cbn; auto.
+  - apply apps_nil. apply process_testrequest_allev; cbn; auto.
+  - apply apps_nil. apply process_heartbeat_allev; cbn; auto.
+  - destruct v; reflexivity.
+Qed.
+
+Lemma dispatch_not_resend c m v : allev not_resend (dispatch c m v).
+Proof.
+  unfold dispatch. destruct (mkind m); try solve [allev_tac].
+  - apply process_resend_allev; cbn; auto. intros t tags Ht. now apply noreply_not_resend.
+  - apply process_testrequest_allev; cbn; auto.
+  - apply process_heartbeat_allev; cbn; auto.
+Qed.
+
+Lemma dispatch_nin c m v : pres nin (dispatch c m v).
+Proof. apply dispatch_pres. ins_solve. Qed.
+
+Lemma set_seq_num_st o i : pres st (set_seq_num o i).
+Proof. apply set_seq_num_pres; try ins_solve; intros _; cbn; reflexivity. Qed.
+
+Lemma replay_loop_aw c rows : forall a b, keeps aw_or_dead (replay_loop c rows a b).
+Proof.
+  induction rows as [|r rows IH]; intros a b; cbn [replay_loop]; [keeps_tac|].
+  keeps_step; [keeps_tac|]. keeps_step; [keeps_tac|].
+  destruct (_ || _); [apply IH|].
+  keeps_step; [destruct (a <? b); [apply send_msg_keeps_aw|keeps_tac]|].
+  keeps_step; [keeps_tac|]. keeps_step; [keeps_tac|]. keeps_step; [keeps_tac|]. keeps_step; [keeps_tac|].
+  keeps_step; [apply send_msg_keeps_aw|apply IH].
+Qed.
+
+(* process_resend entered in RESENDREQ_AWAITING leaves the state alone *)
+Definition awaiting (w : world) : Prop := st w = ST_AWAITING.
+
+Lemma send_msg_keeps_awaiting c m : keeps awaiting (send_msg c m).
+Proof. apply (send_msg_keeps_st c m (fun s => s = ST_AWAITING)). stlia. Qed.
+
+Lemma replay_loop_awaiting c rows : forall a b, keeps awaiting (replay_loop c rows a b).
+Proof.
+  induction rows as [|r rows IH]; intros a b; cbn [replay_loop]; [keeps_tac|].
+  keeps_step; [keeps_tac|]. keeps_step; [keeps_tac|].
+  destruct (_ || _); [apply IH|].
+  keeps_step; [destruct (a <? b); [apply send_msg_keeps_awaiting|keeps_tac]|].
+  keeps_step; [keeps_tac|]. keeps_step; [keeps_tac|]. keeps_step; [keeps_tac|]. keeps_step; [keeps_tac|].
+  keeps_step; [apply send_msg_keeps_awaiting|apply IH].
+Qed.
+
+Lemma process_resend_awaiting c m : keeps awaiting (process_resend c m).
+Proof.
+  assert (Hq : forall o i, keeps awaiting (set_seq_num o i)).
+  { intros. apply (keeps_pres st (fun s => s = ST_AWAITING)). apply set_seq_num_st. }
+  assert (Hr : forall a b, keeps awaiting (recover_out a b)).
+  { intros. apply (keeps_pres st (fun s => s = ST_AWAITING)). apply recover_out_pres. }
+  unfold process_resend. apply keeps_bind_getw. intros w0 H0 w ->.
+  revert w0 H0.
+  enough (forall w0, awaiting w0 -> keeps awaiting
+     ((if negb (st w0 =? ST_AWAITING) then state_set ST_HANDLING else ret tt) ;;;
+      b <- lift (get_int T7 m) ;; e0 <- lift (get_int T16 m) ;;
+      rows <- recover_out b (if e0 =? 0 then c_maxsize c else e0) ;;
+      w1 <- getw ;; set_seq_num (Some b) None ;;;
+      g <- replay_loop c rows b b ;;
+      (if nout w1 <? snd g then raise XAssertion else ret tt) ;;;
+      (if fst g <? nout w1 then send_msg c (gap_fill (fst g) (z_to_dec (nout w1))) else ret tt) ;;;
+      set_seq_num (Some (nout w1)) None ;;;
+      w2 <- getw ;; (if negb (st w2 =? ST_AWAITING) then state_set ST_ACTIVE else ret tt))) as H
+    by (intros w0 H0; apply H; exact H0).
+  intros w0 H0. unfold awaiting in H0.
+  keeps_step. { rewrite H0. cbn. keeps_tac. }
+  keeps_step; [keeps_tac|]. keeps_step; [keeps_tac|]. keeps_step; [apply Hr|].
+  keeps_step; [keeps_tac|]. keeps_step; [apply Hq|]. keeps_step; [apply replay_loop_awaiting|].
+  keeps_step; [keeps_tac|].
+  keeps_step; [destruct (_ <? _); [apply send_msg_keeps_awaiting|keeps_tac]|].
+  keeps_step; [apply Hq|].
+  apply keeps_bind_getw. intros w2 H2 w ->. unfold awaiting in H2. rewrite H2. cbn. exact H2.
+Qed.
+
+Lemma dispatch_aw c m v w : awaiting w -> aw_or_dead (rw (dispatch c m v w)).
+Proof.
+  intros Hw. unfold dispatch. destruct (mkind m); try (left; destruct v; exact Hw); try (left; exact Hw).
+  - left. apply process_resend_awaiting. exact Hw.
+  - apply send_msg_keeps_aw. left. exact Hw.
+  - assert (Hd : forall lm, keeps aw_or_dead (disconnect c ST_DISC_BROKEN lm))
+      by (intros; apply disconnect_keeps_aw; stlia).
+    assert (keeps aw_or_dead (process_heartbeat c m)) as H; [|apply H; left; exact Hw].
+    unfold process_heartbeat. keeps_step; [keeps_tac|]. destruct (treq a); [|keeps_tac].
+    destruct (get T112 (mtags m)); [|keeps_tac]. destruct (negb _); [apply Hd|].
+    apply keeps_modw. intros w1 H1. exact H1.
+Qed.
+
+(* dispatch is only reached on a live connection; still, a dead one stays dead except through
+   process_resend (which sets RESENDREQ_HANDLING unconditionally) *)
+Lemma dispatch_dead c m v w : dead w -> mkind m <> KResend -> dead (rw (dispatch c m v w)).
+Proof.
+  intros Hw Hk. unfold dispatch. destruct (mkind m); try congruence; try (destruct v; exact Hw); try exact Hw.
+  - apply (send_msg_keeps_st c _ (fun s => s <= ST_DISC_BROKEN)); [stlia|exact Hw].
+  - assert (keeps dead (process_heartbeat c m)) as H; [|apply H; exact Hw].
+    unfold process_heartbeat. keeps_step; [keeps_tac|]. destruct (treq a); [|keeps_tac].
+    destruct (get T112 (mtags m)); [|keeps_tac]. destruct (negb _).
+    + intros w0 H0. unfold disconnect. rewrite bind_unfold. cbn [getw rv rw re].
+      unfold dead in H0. destruct (st w0 <=? ST_DISC_BROKEN) eqn:E; [exact H0|lia].
+    + apply keeps_modw. intros w1 H1. exact H1.
+Qed.
+
+(* ------------------------------------------------------------------ finalize *)
+
+Lemma finalize_not_app m now : allev not_app (finalize m now).
+Proof. apply finalize_allev. exact I. Qed.
+Lemma finalize_not_resend m now : allev not_resend (finalize m now).
+Proof. apply finalize_allev. exact I. Qed.
+
+Lemma get_int_inv t m n : get_int t m = inl n ->
+  exists v, get t (mtags m) = Some v /\ py_int v = Some n.
+Proof.
+  unfold get_int. destruct (get t (mtags m)) as [v|]; [|discriminate].
+  destruct (py_int v) eqn:E; [|discriminate]. intros H. inversion H. subst. eauto.
+Qed.
+
+Lemma finalize_tail_nin m now r : pres nin (finalize_tail m now r).
+Proof. apply finalize_tail_pres. ins_solve. Qed.
+
+(* a message that is not a SequenceReset advances the expected number by one exactly when it carries it *)
+Lemma finalize_nin m now w n :
+  mkind m <> KSeqReset -> get_int T34 m = inl n ->
+  nin (rw (finalize m now w)) = if n =? nin w then n + 1 else nin w.
+Proof.
+  intros Hk Hn. apply get_int_inv in Hn. destruct Hn as [v [Hg Hp]].
+  unfold finalize. rewrite bind_unfold.
+  assert (Hs : set_next_num_in m w =
+               if negb (n =? nin w) then mkR (inl (-1)) w [] else mkR (inl n) (set_nin (n + 1) w) []).
+  { unfold set_next_num_in. destruct (mkind m); try congruence; rewrite Hg, Hp; msimp;
+      destruct (negb (n =? nin w)); reflexivity. }
+  rewrite Hs. destruct (n =? nin w) eqn:E; cbn [negb rv rw re]; [|reflexivity].
+  destruct (n <=? 0); [reflexivity|]. rewrite finalize_tail_nin. reflexivity.
+Qed.
+
+Definition closed_or (w : world) : Prop :=
+  st w = ST_AWAITING \/ dead w \/ (st w = ST_ACTIVE /\ maxres w = 0).
+
+Lemma finalize_aw m now w : aw_or_dead w -> closed_or (rw (finalize m now w)).
+Proof.
+  intros Hw.
+  assert (Hn : keeps aw_or_dead (set_next_num_in m)).
+  { apply (keeps_pres st (fun s => s = ST_AWAITING \/ s <= ST_DISC_BROKEN)).
+    apply set_next_num_in_pres. ins_solve. }
+  unfold finalize. rewrite bind_unfold. specialize (Hn w Hw).
+  destruct (set_next_num_in m w) as [r1 w1 e1]. cbn [rv rw re] in *.
+  assert (Hc : closed_or w1) by (destruct Hn as [H|H]; [left|right; left]; exact H).
+  destruct r1 as [r|x]; cbn [rv rw re]; [|exact Hc].
+  destruct (r <=? 0); [exact Hc|].
+  unfold finalize_tail. rewrite bind_unfold. cbn [getw rv rw re]. rewrite bind_unfold.
+  assert (Hp : pres st (modw (set_lastt now) ;;; persist_in m)).
+  { pres_step; [pres_tac|]. apply persist_in_pres. ins_solve. }
+  assert (Hpm : pres maxres (modw (set_lastt now) ;;; persist_in m)).
+  { pres_step; [pres_tac|]. apply persist_in_pres. ins_solve. }
+  set (T := modw (set_lastt now) ;;; persist_in m) in *. clearbody T.
+  destruct (st w1 =? ST_AWAITING) eqn:Es.
+  - destruct (negb (0 <? maxres w1)); [cbn; exact Hc|].
+    destruct (maxres w1 <=? r).
+    + cbn. right. right. rewrite Hp, Hpm. cbn. split; reflexivity.
+    + cbn. unfold closed_or, dead. rewrite Hp, Hpm. exact Hc.
+  - cbn. unfold closed_or, dead. rewrite Hp, Hpm. exact Hc.
+Qed.
+
+(* ------------------------------------------------------------------ _validate_integrity *)
+
+Lemma validate_ok_low c m w n :
+  validate_integrity c m w = VOk -> get_int T34 m = inl n -> n < nin w -> mkind m <> KSeqReset ->
+  st w = ST_AWAITING.
+Proof.
+  intros V Hn Hlt Hk. apply get_int_inv in Hn. destruct Hn as [v [Hg Hp]].
+  unfold validate_integrity in V.
+  destruct (get T8 (mtags m)); [|discriminate]. destruct (negb _); [discriminate|].
+  destruct (get T49 (mtags m)); [|discriminate]. destruct (get T56 (mtags m)); [|discriminate].
+  destruct (negb _); [discriminate|]. rewrite Hg, Hp in V.
+  destruct ((n <? nin w) && negb match mkind m with KSeqReset => true | _ => false end
+            && negb (st w =? ST_AWAITING)) eqn:E; [discriminate|].
+  destruct (mkind m); try congruence; cbn in E; lia.
+Qed.
+
+(* ------------------------------------------------------------------ one step of _process_message *)
+
+Record pm_spec (c : cfg) (m : msg) (w : world) (r : res unit) : Prop := mkPM {
+  pm_apps : apps (re r) = [] \/
+            (apps (re r) = [m] /\ mkind m = KApp /\ validate_integrity c m w = VOk /\
+             exists n, get_int T34 m = inl n /\ n <= nin w /\ (n < nin w -> st w = ST_AWAITING)
+                       /\ nin (rw r) = (if n =? nin w then n + 1 else nin w));
+  pm_nin : mkind m <> KSeqReset ->
+           nin (rw r) = nin w \/
+           (get_int T34 m = inl (nin w) /\ nin (rw r) = nin w + 1 /\ validate_integrity c m w = VOk);
+  pm_resend : resends (re r) = [] \/
+              (exists rr, resends (re r) = [rr] /\ (st w <> ST_AWAITING \/ mkind m = KLogon)
+                          /\ get T7 (mtags rr) = Some (z_to_dec (nin (rw r))) /\ get T16 (mtags rr) = Some S_0);
+  pm_aw : st w = ST_AWAITING -> mkind m <> KLogon -> closed_or (rw r)
+}.
+
+Lemma aw_closed w : aw_or_dead w -> closed_or w.
+Proof. intros [H|H]; [left|right; left]; exact H. Qed.
+
+Lemma pm_disconnect c m w lm :
+  pm_spec c m w (disconnect c ST_DISC_BROKEN lm w).
+Proof.
+  assert (Hd : allev (fun e => not_app e /\ not_resend e) (disconnect c ST_DISC_BROKEN lm))
+    by (apply disconnect_allev; cbn; auto).
+  assert (Hn : pres nin (disconnect c ST_DISC_BROKEN lm)) by (apply disconnect_pres; ins_solve).
+  specialize (Hd w). specialize (Hn w).
+  assert (Ha : apps (re (disconnect c ST_DISC_BROKEN lm w)) = []).
+  { apply apps_nil. eapply Forall_impl; [|exact Hd]. cbn. tauto. }
+  assert (Hr : resends (re (disconnect c ST_DISC_BROKEN lm w)) = []).
+  { apply resends_nil. eapply Forall_impl; [|exact Hd]. cbn. tauto. }
+  constructor; auto.
+  intros Hs _. apply aw_closed. apply disconnect_keeps_aw; [stlia|]. left. exact Hs.
+Qed.
+
+Lemma process_message_spec c m now w : pm_spec c m w (process_message c m now w).
+Proof.
+  unfold process_message. destruct (validate_integrity c m w) eqn:V.
+  2: apply pm_disconnect. 2: apply pm_disconnect.
+  2:{ cbn. constructor; cbn; auto. intros Hs _. left. exact Hs. }
+  rewrite bind_unfold. unfold try_ at 1 2 3 4 5 6.
+  pose proof (part1_spec c m w) as [Pt Pr Pn Pa Pw Pf].
+  destruct (part1 c m w) as [r1 w1 e1]. cbn [rv rw re] in *.
+  assert (Pr' : resends e1 = [] \/
+                (exists rr, resends e1 = [rr] /\ (st w <> ST_AWAITING \/ mkind m = KLogon)
+                            /\ get T7 (mtags rr) = Some (z_to_dec (nin w1)) /\ get T16 (mtags rr) = Some S_0)).
+  { destruct Pr as [Pr|[rr [? [? [? [? ?]]]]]]; [left; auto|right; exists rr; auto]. }
+  destruct r1 as [[[|]|]|x]; cbn [rv rw re after_part1].
+  - (* is_valid_msg_num = True *)
+    destruct (Pt eq_refl) as [n [Hn [Hle [Hlo [H6 Hnd]]]]].
+    rewrite bind_unfold. unfold try_.
+    pose proof (dispatch_apps c m true w1) as Da.
+    pose proof (resends_nil _ (dispatch_not_resend c m true w1)) as Dr.
+    pose proof (dispatch_nin c m true w1) as Dn.
+    pose proof (dispatch_aw c m true w1) as Dw.
+    destruct (dispatch c m true w1) as [r2 w2 e2]. cbn [rv rw re] in *.
+    pose proof (apps_nil _ (finalize_not_app m now w2)) as Fa.
+    pose proof (resends_nil _ (finalize_not_resend m now w2)) as Fr.
+    pose proof (finalize_aw m now w2) as Fw.
+    destruct r2; cbn [rv rw re]; (constructor; cbn [rv rw re]).
+    1,5: (rewrite !apps_app, Pa, Da, Fa; cbn [andb app]; unfold delivers;
+      destruct (mkind m) eqn:Ek; cbn [app]; auto; try congruence;
+      right; repeat split; auto; exists n;
+      assert (Hk : KApp <> KSeqReset) by discriminate;
+      rewrite (Pn Hk) in Hle;
+      repeat split; auto;
+      [ intros Hlt; eapply validate_ok_low; eauto; congruence
+      | rewrite (finalize_nin m now w2 n); [|congruence|exact Hn]; rewrite Dn, (Pn Hk); reflexivity ]).
+    1,4: (intros Hk; rewrite (finalize_nin m now w2 n Hk Hn), Dn, (Pn Hk);
+      destruct (n =? nin w) eqn:E; [|left; reflexivity];
+      right; assert (n = nin w) by lia; subst n; auto).
+    1,3: (rewrite !resends_app, Dr, Fr, !app_nil_r;
+      destruct Pr as [Pr|[rr [Pr [H1 [H2 [H3 H4]]]]]]; [left; exact Pr|]; congruence).
+    1,2: (intros Hs Hk; apply Fw; specialize (Pw Hs Hk); destruct Pw as [Pw|Pw];
+      [apply Dw; exact Pw | contradiction]).
+  - (* is_valid_msg_num = False *)
+    rewrite bind_unfold. unfold try_.
+    pose proof (dispatch_apps c m false w1) as Da.
+    pose proof (resends_nil _ (dispatch_not_resend c m false w1)) as Dr.
+    pose proof (dispatch_nin c m false w1) as Dn.
+    pose proof (dispatch_aw c m false w1) as Dw.
+    destruct (dispatch c m false w1) as [r2 w2 e2]. cbn [rv rw re] in *.
+    destruct r2; cbn [ret rv rw re]; rewrite ?app_nil_r; (constructor; cbn [rv rw re]).
+    1,5: (rewrite !apps_app, Pa, Da; cbn [andb app]; left; reflexivity).
+    1,4: (intros Hk; rewrite Dn, (Pn Hk); left; reflexivity).
+    1,3: (rewrite !resends_app, Dr, !app_nil_r, Dn; exact Pr').
+    1,2: (intros Hs Hk; apply aw_closed; apply Dw; apply Pf; reflexivity).
+  - (* early return *)
+    cbn [ret rv rw re]. rewrite app_nil_r.
+    constructor; cbn [rv rw re]; auto.
+    intros Hs Hk. apply aw_closed. auto.
+  - (* exception swallowed *)
+    cbn [ret rv rw re]. rewrite app_nil_r.
+    constructor; cbn [rv rw re]; auto.
+    intros Hs Hk. apply aw_closed. auto.
+Qed.
+
+(* ------------------------------------------------------------------ SequenceReset: where the expected number can go *)
+
+Lemma keeps_bind_lift {A B} (I : world -> Prop) (v : A + exn) (k : A -> M B) :
+  (forall a, v = inl a -> keeps I (k a)) -> keeps I (bind (lift v) k).
+Proof.
+  intros H w Hw. rewrite bind_unfold. destruct v as [a|x]; cbn; [apply H; auto | exact Hw].
+Qed.
+
+Definition nin_target (m : msg) (n0 a x : Z) : Prop :=
+  x = n0 \/ x = a \/ exists b, get_int T36 m = inl b /\ x = b.
+
+Lemma set_seq_num_in_keeps (Q : Z -> Prop) v : Q v -> keeps (fun w => Q (nin w)) (set_seq_num None (Some v)).
+Proof.
+  intros Hv. unfold set_seq_num. keeps_step; [keeps_tac|].
+  keeps_step. { destruct (v <=? 0); [keeps_tac|]. apply keeps_modw. intros w _. exact Hv. }
+  keeps_step; [keeps_tac|]. destruct (negb _); [keeps_tac|].
+  keeps_step; [apply keeps_modw; intros w H; exact H|].
+  keeps_step; [keeps_tac|].
+  keeps_step; [apply keeps_modw; intros w H; exact H|].
+  keeps_step; [keeps_tac|].
+  apply keeps_modw; intros w H; exact H.
+Qed.
+
+Lemma gap_check_nin c m : pres nin (gap_check c m).
+Proof.
+  assert (H : forall n, pres nin (check_gaps c n)) by (intros; apply check_gaps_nin).
+  unfold gap_check. pres_tac; auto.
+Qed.
+
+Section SeqReset.
+  Context (c : cfg) (m : msg) (now n0 a : Z).
+  Hypothesis Hk : mkind m = KSeqReset.
+  Hypothesis Ha : get_int T34 m = inl a.
+  Let I := fun w => nin_target m n0 a (nin w).
+
+  Lemma keepsI_pres {A} (k : M A) : pres nin k -> keeps I k.
+  Proof. intros H. apply (keeps_pres nin (nin_target m n0 a)). exact H. Qed.
+
+  Lemma process_seqreset_keepsI : keeps I (process_seqreset c m).
+  Proof.
+    unfold process_seqreset. apply keeps_bind_lift. intros a' Ha'.
+    assert (a' = a) by congruence. subst a'.
+    keeps_step. { apply (set_seq_num_in_keeps (nin_target m n0 a)). right. left. reflexivity. }
+    apply keeps_bind_lift. intros b Hb.
+    apply (set_seq_num_in_keeps (nin_target m n0 a)). right. right. exists b. auto.
+  Qed.
+
+  Lemma part1_keepsI : keeps I (part1 c m).
+  Proof.
+    unfold part1. keeps_step; [keeps_tac|]. destruct (st a0 <? ST_NCE); [keeps_tac|].
+    destruct (_ && _).
+    { keeps_step; [|keeps_tac]. apply keepsI_pres. apply disconnect_pres. ins_solve. }
+    keeps_step; [|apply keepsI_pres, gap_check_nin].
+    unfold pre_handlers. keeps_step.
+    { destruct (st a0 =? ST_NCE); [|keeps_tac]. apply keepsI_pres.
+      pres_step; [apply state_set_pres; ins_solve|pres_tac]. }
+    rewrite Hk. apply process_seqreset_keepsI.
+  Qed.
+
+  Lemma finalize_keepsI : keeps I (finalize m now).
+  Proof.
+    unfold finalize. keeps_step.
+    - unfold set_next_num_in. rewrite Hk. destruct (get T36 (mtags m)) as [v|] eqn:Eg; [|keeps_tac].
+      destruct (py_int v) as [b|] eqn:Ep; [|keeps_tac].
+      keeps_step; [|keeps_tac]. apply keeps_modw. intros w _. unfold I. cbn.
+      right. right. exists b. split; [|reflexivity]. unfold get_int. now rewrite Eg, Ep.
+    - destruct (a0 <=? 0); [keeps_tac|]. apply keepsI_pres, finalize_tail_nin.
+  Qed.
+
+  Lemma process_message_keepsI : keeps I (process_message c m now).
+  Proof.
+    intros w Hw. unfold process_message. destruct (validate_integrity c m w).
+    - revert w Hw. change (keeps I (r1 <- try_ (part1 c m) ;; after_part1 c m now r1)).
+      keeps_step; [apply keeps_try, part1_keepsI|].
+      assert (Hd : forall v, keeps I (dispatch c m v)) by (intros; apply keepsI_pres, dispatch_nin).
+      unfold after_part1. destruct a0 as [[[|]|]|]; try solve [keeps_tac].
+      + keeps_step; [apply keeps_try, Hd|]. apply finalize_keepsI.
+      + keeps_step; [apply keeps_try, Hd|]. keeps_tac.
+    - apply (keepsI_pres (disconnect c ST_DISC_BROKEN None)); [apply disconnect_pres; ins_solve|exact Hw].
+    - apply (keepsI_pres (disconnect c ST_DISC_BROKEN (Some code))); [apply disconnect_pres; ins_solve|exact Hw].
+    - exact Hw.
+  Qed.
+End SeqReset.
+
+Lemma pm_seqreset c m now w a :
+  mkind m = KSeqReset -> get_int T34 m = inl a ->
+  nin_target m (nin w) a (nin (rw (process_message c m now w))).
+Proof.
+  intros Hk Ha. apply (process_message_keepsI c m now (nin w) a Hk Ha w). left. reflexivity.
+Qed.
+
+Lemma validate_ok_seq c m w : validate_integrity c m w = VOk -> exists n, get_int T34 m = inl n.
+Proof.
+  unfold validate_integrity, get_int.
+  destruct (get T8 (mtags m)); [|discriminate]. destruct (negb _); [discriminate|].
+  destruct (get T49 (mtags m)); [|discriminate]. destruct (get T56 (mtags m)); [|discriminate].
+  destruct (negb _); [discriminate|]. destruct (get T34 (mtags m)); [|discriminate].
+  destruct (py_int s2); [|discriminate]. eauto.
+Qed.
+
+(* without a passing integrity check the expected number does not move *)
+Lemma pm_not_ok_nin c m now w :
+  validate_integrity c m w <> VOk -> nin (rw (process_message c m now w)) = nin w.
+Proof.
+  intros V. unfold process_message. destruct (validate_integrity c m w); try congruence; try reflexivity;
+    apply disconnect_pres; ins_solve.
+Qed.
+
+(* ------------------------------------------------------------------ histories *)
+
+Definition seqnum (m : msg) : option Z := match get_int T34 m with inl n => Some n | inr _ => None end.
+
+(* MsgSeqNum values handed to the application by one step, in order *)
+Definition delivered (s : srec) : list Z :=
+  flat_map (fun m => match seqnum m with Some n => [n] | None => [] end) (apps (s_events s)).
+
+(* known-finding class D10: an application frame numbered below the expected number arrives while a
+   resend is awaited (state RESENDREQ_AWAITING) *)
+Definition D10_step (s : srec) : Prop :=
+  exists m now n, s_op s = OIn m now /\ mkind m = KApp /\ st (s_before s) = ST_AWAITING
+                  /\ get_int T34 m = inl n /\ n < nin (s_before s).
+
+(* a SequenceReset the property allows to be honoured: own number = expected, NewSeqNo not backwards *)
+Definition ok_seqreset (w : world) (m : msg) : Prop :=
+  get_int T34 m = inl (nin w) /\ (forall b, get_int T36 m = inl b -> nin w <= b).
+
+(* known-finding class D11: any other SequenceReset that passes the integrity check *)
+Definition D11_step (c : cfg) (s : srec) : Prop :=
+  exists m now, s_op s = OIn m now /\ mkind m = KSeqReset
+                /\ validate_integrity c m (s_before s) = VOk /\ ~ ok_seqreset (s_before s) m.
+
+Lemma ok_seqreset_dec w m : ok_seqreset w m \/ ~ ok_seqreset w m.
+Proof.
+  unfold ok_seqreset. destruct (get_int T34 m) as [a|x].
+  2:{ right. intros [H _]. discriminate. }
+  destruct (Z.eq_dec a (nin w)) as [->|Hne].
+  2:{ right. intros [H _]. congruence. }
+  destruct (get_int T36 m) as [b|x].
+  2:{ left. split; auto. intros b Hb. discriminate. }
+  destruct (Z_le_gt_dec (nin w) b).
+  - left. split; auto. intros b' Hb. inversion Hb. subst. assumption.
+  - right. intros [_ H]. specialize (H b eq_refl). lia.
+Qed.
+
+Lemma not_D11_ok c m now w r :
+  ~ D11_step c (mkS w (OIn m now) r) -> mkind m = KSeqReset -> validate_integrity c m w = VOk ->
+  ok_seqreset w m.
+Proof.
+  intros H Hk V. destruct (ok_seqreset_dec w m) as [Hok|Hno]; [exact Hok|].
+  exfalso. apply H. exists m, now. cbn. auto.
+Qed.
+
+Lemma run_cons c w o h : run c w (o :: h) = mkS w o (step c o w) :: run c (rw (step c o w)) h.
+Proof. reflexivity. Qed.
+
+(* operations other than inbound messages neither deliver nor move the expected number *)
+Lemma step_other c o w :
+  (forall m now, o <> OIn m now) ->
+  apps (re (step c o w)) = [] /\ nin (rw (step c o w)) = nin w.
+Proof.
+  intros Ho. destruct o as [m now|m|now|ds lm]; [exfalso; eapply Ho; eauto| | |]; cbn [step].
+  - split; [apply apps_nil, send_msg_allev; cbn; auto | apply send_msg_pres; ins_solve].
+  - split; [apply apps_nil, send_test_req_allev; cbn; auto | apply send_test_req_pres; ins_solve].
+  - split; [apply apps_nil, disconnect_allev; cbn; auto | apply disconnect_pres; ins_solve].
+Qed.
+
+Ltac other_case c w :=
+  match goal with
+  | |- context [step c ?o w] => destruct (step_other c o w) as [Ha Hn]; [intros; discriminate|]
+  end.
+
+(* C04_deliver_at_most_expected, one step *)
+Lemma step_deliver_le c o w n :
+  In n (delivered (mkS w o (step c o w))) -> n <= nin w.
+Proof.
+  unfold delivered, s_events. cbn [s_res].
+  destruct o as [m now|m|now|ds lm].
+  2-4: (other_case c w; rewrite Ha; cbn; tauto).
+  cbn [step]. destruct (pm_apps _ _ _ _ (process_message_spec c m now w)) as [Ha|[Ha [Hk [V [k [Hk1 [Hk2 _]]]]]]];
+    rewrite Ha; cbn; [tauto|].
+  unfold seqnum. rewrite Hk1. cbn. intros [<-|[]]. exact Hk2.
+Qed.
+
+(* one step outside the classes D10 and D11 *)
+Lemma step_inorder c o w :
+  let s := mkS w o (step c o w) in
+  ~ D10_step s -> ~ D11_step c s ->
+  (delivered s = [] \/ (delivered s = [nin w] /\ nin (s_after s) = nin w + 1)) /\ nin w <= nin (s_after s).
+Proof.
+  intros s H10 H11. subst s. unfold delivered, s_after, s_events in *. cbn [s_res s_before s_op] in *.
+  destruct o as [m now|m|now|ds lm].
+  2-4: (other_case c w; rewrite Ha, Hn; cbn; split; [left; reflexivity|lia]).
+  cbn [step].
+  pose proof (process_message_spec c m now w) as [Pa Pn _ _].
+  split.
+  - destruct Pa as [Ha|[Ha [Hk [V [k [Hk1 [Hk2 [Hk3 Hk4]]]]]]]]; rewrite Ha; cbn; [left; reflexivity|].
+    right. unfold seqnum. rewrite Hk1. cbn.
+    assert (k = nin w).
+    { destruct (Z.eq_dec k (nin w)); auto. exfalso. apply H10.
+      exists m, now, k. cbn. repeat split; auto. apply Hk3. lia. lia. }
+    subst k. rewrite Z.eqb_refl in Hk4. auto.
+  - destruct (mkind m) eqn:Ek.
+    2:{ (* SequenceReset *)
+      destruct (validate_integrity c m w) eqn:V.
+      2-4: (rewrite pm_not_ok_nin; [lia|congruence]).
+      pose proof (not_D11_ok c m now w _ H11 Ek V) as Hok.
+      destruct Hok as [Hok1 Hok2].
+      destruct (pm_seqreset c m now w (nin w) Ek Hok1) as [H|[H|[b [Hb H]]]]; try lia.
+      specialize (Hok2 b Hb). lia. }
+    all: (destruct Pn as [Pn|[_ [Pn _]]]; [congruence| |]; lia).
+Qed.
+
+(* the two per-step facts lifted over a history *)
+Lemma run_deliver_le c h : forall w,
+  Forall (fun s => forall n, In n (delivered s) -> n <= nin (s_before s)) (run c w h).
+Proof.
+  induction h as [|o h IH]; intros w; cbn [run]; constructor; [|apply IH].
+  cbn [s_before]. intros n. apply step_deliver_le.
+Qed.
+
+Lemma run_inorder c h : forall w,
+  Forall (fun s => ~ D10_step s /\ ~ D11_step c s) (run c w h) ->
+  Forall (fun n => nin w <= n) (flat_map delivered (run c w h))
+  /\ StronglySorted Z.lt (flat_map delivered (run c w h))
+  /\ Forall (fun s => forall n, In n (delivered s) ->
+                      n = nin (s_before s) /\ nin (s_after s) = n + 1 /\ delivered s = [n]) (run c w h).
+Proof.
+  induction h as [|o h IH]; intros w Hc; cbn [run flat_map].
+  { repeat split; constructor. }
+  cbn [run] in Hc. inversion Hc as [|s l [H10 H11] Hrest]; subst.
+  destruct (IH _ Hrest) as [Ilb [Isort Iall]].
+  destruct (step_inorder c o w H10 H11) as [Hd Hmono]. unfold s_after in *. cbn [s_res] in *.
+  assert (Hlb' : Forall (fun n => nin w <= n) (flat_map delivered (run c (rw (step c o w)) h))).
+  { eapply Forall_impl; [|exact Ilb]. cbn. intros. lia. }
+  destruct Hd as [Hd|[Hd Hn]]; rewrite Hd; cbn [app].
+  - repeat split; auto. constructor; auto. cbn [s_before]. rewrite Hd. cbn. tauto.
+  - repeat split.
+    + constructor; [lia|exact Hlb'].
+    + constructor; [exact Isort|]. eapply Forall_impl; [|exact Ilb]. cbn. intros. lia.
+    + constructor; auto. unfold s_after. cbn [s_before s_res]. rewrite Hd. cbn. intros n [<-|[]]. auto.
+Qed.
+
+(* ---- single ResendRequest per gap ---- *)
+
+Definition resend_ok (s : srec) : Prop :=
+  forall m now, s_op s = OIn m now ->
+    (resends (s_events s) = [] \/
+     exists rr, resends (s_events s) = [rr]
+                /\ (st (s_before s) <> ST_AWAITING \/ mkind m = KLogon)
+                /\ get T7 (mtags rr) = Some (z_to_dec (nin (s_after s)))
+                /\ get T16 (mtags rr) = Some S_0)
+    /\ (st (s_before s) = ST_AWAITING -> mkind m <> KLogon ->
+        resends (s_events s) = [] /\ closed_or (s_after s)).
+
+Lemma step_resend_ok c o w : resend_ok (mkS w o (step c o w)).
+Proof.
+  intros m now Ho. cbn [s_op] in Ho. subst o. unfold s_events, s_after. cbn [s_res s_before step].
+  pose proof (process_message_spec c m now w) as [_ _ Pr Pw]. split; [exact Pr|].
+  intros Hs Hk. split; [|auto].
+  destruct Pr as [Pr|[rr [_ [[H|H] _]]]]; [exact Pr| |]; contradiction.
+Qed.
+
+Lemma run_resend_ok c h : forall w, Forall resend_ok (run c w h).
+Proof. induction h as [|o h IH]; intros w; cbn [run]; constructor; [apply step_resend_ok|apply IH]. Qed.
+
+(* ---- how the expected number moves ---- *)
+
+Definition counter_moves (c : cfg) (s : srec) : Prop :=
+  nin (s_after s) = nin (s_before s)
+  \/ (exists m now, s_op s = OIn m now /\ mkind m <> KSeqReset /\ validate_integrity c m (s_before s) = VOk
+                    /\ get_int T34 m = inl (nin (s_before s)) /\ nin (s_after s) = nin (s_before s) + 1)
+  \/ (exists m now a, s_op s = OIn m now /\ mkind m = KSeqReset /\ validate_integrity c m (s_before s) = VOk
+                      /\ get_int T34 m = inl a
+                      /\ (nin (s_after s) = a \/ exists b, get_int T36 m = inl b /\ nin (s_after s) = b)).
+
+Lemma step_counter_moves c o w : counter_moves c (mkS w o (step c o w)).
+Proof.
+  unfold counter_moves, s_after. cbn [s_res s_before s_op].
+  destruct o as [m now|m|now|ds lm].
+  2-4: (other_case c w; left; exact Hn).
+  cbn [step]. destruct (mkind m) eqn:Ek.
+  2:{ destruct (validate_integrity c m w) eqn:V.
+      2-4: (left; apply pm_not_ok_nin; congruence).
+      destruct (validate_ok_seq c m w V) as [a Ha].
+      destruct (pm_seqreset c m now w a Ek Ha) as [H|H]; [left; exact H|].
+      right. right. exists m, now, a. repeat split; auto. }
+  all: (pose proof (process_message_spec c m now w) as [_ Pn _ _];
+        destruct Pn as [Pn|[P1 [P2 P3]]]; [congruence|left; exact Pn|];
+        right; left; exists m, now; repeat split; auto; congruence).
+Qed.
+
+Lemma run_counter_moves c h : forall w, Forall (counter_moves c) (run c w h).
+Proof. induction h as [|o h IH]; intros w; cbn [run]; constructor; [apply step_counter_moves|apply IH]. Qed.
+
+(* outside class D11 the expected number never decreases, and a SequenceReset moves it to NewSeqNo only *)
+Lemma run_counter_forward c h : forall w,
+  Forall (fun s => ~ D11_step c s) (run c w h) ->
+  Forall (fun s => nin (s_after s) = nin (s_before s)
+                   \/ nin (s_after s) = nin (s_before s) + 1
+                   \/ exists m now b, s_op s = OIn m now /\ mkind m = KSeqReset
+                                      /\ get_int T36 m = inl b /\ nin (s_before s) <= b /\ nin (s_after s) = b)
+         (run c w h).
+Proof.
+  induction h as [|o h IH]; intros w Hc; cbn [run] in *; constructor.
+  2:{ apply IH. now inversion Hc. }
+  inversion Hc as [|s l H11 _]; subst. clear Hc IH.
+  destruct (step_counter_moves c o w) as [H|[[m [now [Ho [Hk [V [Hs Hn]]]]]]|[m [now [a [Ho [Hk [V [Ha Hn]]]]]]]]];
+    cbn [s_op s_before] in *; auto.
+  subst o. pose proof (not_D11_ok c m now w _ H11 Hk V) as Hok.
+  destruct Hok as [Hok1 Hok2]. assert (a = nin w) by congruence. subst a.
+  destruct Hn as [Hn|[b [Hb Hn]]]; [left; exact Hn|].
+  right. right. exists m, now, b. repeat split; auto.
+Qed.
+
+(* ------------------------------------------------------------------ boolean class predicates *)
+
+Definition is_vok (v : vres) : bool := match v with VOk => true | _ => false end.
+Definition kind_eqb (a b : kind) : bool :=
+  match a, b with
+  | KLogon, KLogon | KSeqReset, KSeqReset | KLogout, KLogout | KResend, KResend
+  | KTestReq, KTestReq | KHeartbeat, KHeartbeat | KApp, KApp => true
+  | _, _ => false
+  end.
+
+Definition D10_stepb (s : srec) : bool :=
+  match s_op s with
+  | OIn m _ =>
+      kind_eqb (mkind m) KApp && (st (s_before s) =? ST_AWAITING)
+      && match get_int T34 m with inl n => n <? nin (s_before s) | inr _ => false end
+  | _ => false
+  end.
+
+Definition ok_seqresetb (w : world) (m : msg) : bool :=
+  match get_int T34 m with
+  | inl a => (a =? nin w) && match get_int T36 m with inl b => nin w <=? b | inr _ => true end
+  | inr _ => false
+  end.
+
+Definition D11_stepb (c : cfg) (s : srec) : bool :=
+  match s_op s with
+  | OIn m _ =>
+      kind_eqb (mkind m) KSeqReset && is_vok (validate_integrity c m (s_before s))
+      && negb (ok_seqresetb (s_before s) m)
+  | _ => false
+  end.
+
+Lemma D10_stepb_complete s : D10_step s -> D10_stepb s = true.
+Proof.
+  intros [m [now [n [Ho [Hk [Hs [Hn Hlt]]]]]]]. unfold D10_stepb. rewrite Ho, Hk, Hs, Hn. cbn. lia.
+Qed.
+
+Lemma ok_seqresetb_sound w m : ok_seqresetb w m = true -> ok_seqreset w m.
+Proof.
+  unfold ok_seqresetb, ok_seqreset. destruct (get_int T34 m) as [a|]; [|discriminate].
+  intros H. apply andb_true_iff in H. destruct H as [H1 H2]. assert (a = nin w) by lia. subst a.
+  split; auto. intros b Hb. rewrite Hb in H2. lia.
+Qed.
+
+Lemma D11_stepb_complete c s : D11_step c s -> D11_stepb c s = true.
+Proof.
+  intros [m [now [Ho [Hk [V Hno]]]]]. unfold D11_stepb. rewrite Ho, Hk, V. cbn.
+  destruct (ok_seqresetb (s_before s) m) eqn:E; [|reflexivity].
+  exfalso. apply Hno. now apply ok_seqresetb_sound.
+Qed.
+
+Lemma classes_forallb c l :
+  forallb (fun s => negb (D10_stepb s) && negb (D11_stepb c s)) l = true ->
+  Forall (fun s => ~ D10_step s /\ ~ D11_step c s) l.
+Proof.
+  intros H. rewrite forallb_forall in H. apply Forall_forall. intros s Hs. specialize (H s Hs).
+  apply andb_true_iff in H. destruct H as [H1 H2]. split; intros Hd.
+  - apply D10_stepb_complete in Hd. rewrite Hd in H1. discriminate.
+  - apply (D11_stepb_complete c) in Hd. rewrite Hd in H2. discriminate.
+Qed.
+
+(* ------------------------------------------------------------------ concrete witnesses *)
+
+From Coq Require String Ascii.
+Import String.StringSyntax.
+From AFGen Require Import GenEnums.
+Open Scope Z_scope.
+
+Definition S (s : String.string) : str := map Ascii.N_of_ascii (String.list_ascii_of_string s).
+Arguments S s%string.
+
+Definition cfg0 : cfg := mkCfg (S "FIX.4.4") (S "CLI") (S "SRV") (S "20230101-10:00:00.000") sys_maxsize (fun _ => true).
+
+(* a freshly connected acceptor / initiator over an empty journal *)
+Definition w_acceptor : world := mkW ST_NCE ROLE_ACCEPTOR 1 1 0 None false 0 true (mkJ 0 0 [] []).
+Definition w_initiator : world := mkW ST_NCE ROLE_INITIATOR 1 1 0 None false 0 true (mkJ 0 0 [] []).
+
+(* what Codec.decode returns for a frame of the peer *)
+Definition inbound (t : str) (seq : Z) (body : list tagv) : msg :=
+  mkMsg t
+    ([(T8, S "FIX.4.4"); (T9, S "100"); (T35, t); (T49, S "SRV"); (T56, S "CLI");
+      (T34, z_to_dec seq); (T52, S "20230101-10:00:00.000")]
+     ++ body ++ [(T10, S "000")]).
+
+Definition i_logon (seq : Z) := OIn (inbound (S "A") seq [(T98, S "0"); (T108, S "30")]) 0.
+Definition i_app (seq : Z) := OIn (inbound (S "D") seq [(S "11", S "ORD"); (S "55", S "SYM")]) 0.
+Definition i_gapfill (seq new : Z) := OIn (mkMsg (S "4")
+    [(T8, S "FIX.4.4"); (T9, S "100"); (T35, S "4"); (T49, S "SRV"); (T56, S "CLI");
+     (T34, z_to_dec seq); (T52, S "20230101-10:00:00.000"); (T123, S "Y"); (T36, z_to_dec new); (T10, S "000")]) 0.
+Definition i_reset (seq new : Z) := OIn (mkMsg (S "4")
+    [(T8, S "FIX.4.4"); (T9, S "100"); (T35, S "4"); (T49, S "SRV"); (T56, S "CLI");
+     (T34, z_to_dec seq); (T52, S "20230101-10:00:00.000"); (T36, z_to_dec new); (T10, S "000")]) 0.
+Definition o_logon := OSend (mkMsg (S "A") [(T98, S "0"); (T108, S "30")]).
+
+(* D10: Logon, 2, then 4 (gap: ResendRequest, RESENDREQ_AWAITING), then 2 again: delivered twice *)
+Definition h_dup := [i_logon 1; i_app 2; i_app 4; i_app 2].
+Lemma dup_delivered : flat_map delivered (run cfg0 w_acceptor h_dup) = [2; 2].
+Proof. vm_compute. reflexivity. Qed.
+
+Lemma dup_during_resend_refuted :
+  exists c w h, ~ StronglySorted Z.lt (flat_map delivered (run c w h)).
+Proof.
+  exists cfg0, w_acceptor, h_dup. rewrite dup_delivered. intros H.
+  inversion H as [|a l Hs Hf]; subst. inversion Hf as [|b l' Hlt _]; subst. lia.
+Qed.
+
+(* D11: a gap fill numbered 5 while 2 is expected moves the expected number to 7: 2, 3, 4 are skipped and
+   never asked for *)
+Definition h_highfill := [i_logon 1; i_gapfill 5 7].
+Lemma high_gapfill_refuted :
+  exists c w h s m now n,
+    In s (run c w h) /\ s_op s = OIn m now /\ get_int T34 m = inl n /\ nin (s_before s) < n
+    /\ nin (s_before s) < nin (s_after s) /\ resends (trace (run c w h)) = [] /\ flat_map delivered (run c w h) = [].
+Proof.
+  exists cfg0, w_acceptor, h_highfill.
+  eexists (nth 1 (run cfg0 w_acceptor h_highfill) (mkS w_acceptor (i_logon 1) (step cfg0 (i_logon 1) w_acceptor))).
+  eexists. exists 0, 5.
+  split; [right; left; reflexivity|].
+  split; [reflexivity|].
+  split; [vm_compute; reflexivity|].
+  split; [vm_compute; reflexivity|].
+  split; [vm_compute; reflexivity|].
+  split; vm_compute; reflexivity.
+Qed.
+
+(* D11: a SequenceReset with NewSeqNo below the expected number is honoured: old numbers are delivered again *)
+Definition h_backreset := [i_logon 1; i_app 2; i_app 3; i_reset 4 2; i_app 2].
+Lemma backward_reset_refuted :
+  exists c w h, ~ StronglySorted Z.lt (flat_map delivered (run c w h))
+                /\ exists s, In s (run c w h) /\ nin (s_after s) < nin (s_before s).
+Proof.
+  exists cfg0, w_acceptor, h_backreset. split.
+  - assert (E : flat_map delivered (run cfg0 w_acceptor h_backreset) = [2; 3; 2]) by (vm_compute; reflexivity).
+    rewrite E. intros H. inversion H as [|a l Hs Hf]; subst.
+    inversion Hf as [|b l' _ Hf2]; subst. inversion Hf2 as [|b2 l2 Hlt _]; subst. lia.
+  - eexists (nth 3 (run cfg0 w_acceptor h_backreset) (mkS w_acceptor (i_logon 1) (step cfg0 (i_logon 1) w_acceptor))).
+    split; [right; right; right; left; reflexivity|]. vm_compute. reflexivity.
+Qed.
+
+(* new finding D24: a Logon received by the initiator while RESENDREQ_AWAITING resets the state, and
+   its number (above the expected one) triggers a second ResendRequest for the same gap *)
+Definition h_logon_dup := [o_logon; i_logon 1; i_app 3; i_logon 5].
+Lemma logon_dup_resend_refuted :
+  exists c w h rr1 rr2,
+    resends (trace (run c w h)) = [rr1; rr2]
+    /\ get T7 (mtags rr1) = get T7 (mtags rr2)
+    /\ exists s, In s (run c w h) /\ st (s_before s) = ST_AWAITING /\ resends (s_events s) = [rr2].
+Proof.
+  exists cfg0, w_initiator, h_logon_dup. do 2 eexists. split; [vm_compute; reflexivity|]. split; [reflexivity|].
+  eexists (nth 3 (run cfg0 w_initiator h_logon_dup) (mkS w_initiator o_logon (step cfg0 o_logon w_initiator))).
+  split; [right; right; right; left; reflexivity|]. split; vm_compute; reflexivity.
+Qed.
+
+(* non-vacuity: a history with a real gap, a resend, a gap fill that closes the gap, satisfying the
+   hypotheses of the partial theorems and delivering 2, 3, 4, 7 *)
+Definition h_good := [i_logon 1; i_app 2; i_app 5; i_app 3; i_app 4; i_gapfill 5 7; i_app 7].
+Lemma good_history_in_scope :
+  Forall (fun s => ~ D10_step s /\ ~ D11_step cfg0 s) (run cfg0 w_acceptor h_good)
+  /\ flat_map delivered (run cfg0 w_acceptor h_good) = [2; 3; 4; 7]
+  /\ length (resends (trace (run cfg0 w_acceptor h_good))) = 1%nat
+  /\ st (final cfg0 w_acceptor h_good) = ST_ACTIVE.
+Proof.
+  split; [apply classes_forallb; vm_compute; reflexivity|]. repeat split; vm_compute; reflexivity.
+Qed.
+
+(* the model's constants are the enum numbers / values of the code (regenerated every run) *)
+Fixpoint assoc_n (k : str) (l : list (str * N)) : option N :=
+  match l with [] => None | (a, b) :: r => if str_eqb a k then Some b else assoc_n k r end.
+Fixpoint assoc_s (k : str) (l : list (str * str)) : option str :=
+  match l with [] => None | (a, b) :: r => if str_eqb a k then Some b else assoc_s k r end.
+
+Definition enums_ok : bool :=
+  let stn (name : String.string) z := match assoc_n (S name) conn_state with Some n => Z.of_N n =? z | None => false end in
+  let rl (name : String.string) z := match assoc_n (S name) conn_role with Some n => Z.of_N n =? z | None => false end in
+  let mt (name : String.string) v := match assoc_s (S name) fmsg with Some x => str_eqb x v | None => false end in
+  let tg (name : String.string) v := match assoc_s (S name) ftag with Some x => str_eqb x v | None => false end in
+  stn "DISCONNECTED_WCONN_TODAY" ST_DISC_WCONN && stn "DISCONNECTED_BROKEN_CONN" ST_DISC_BROKEN
+  && stn "DISCONNECTED_NOCONN_TODAY" 1
+  && stn "NETWORK_CONN_ESTABLISHED" ST_NCE && stn "LOGON_INITIAL_SENT" ST_LOGON_SENT
+  && stn "LOGON_INITIAL_RECV" ST_LOGON_RECV && stn "RESENDREQ_HANDLING" ST_HANDLING
+  && stn "RECV_SEQNUM_TOO_HIGH" ST_TOO_HIGH && stn "RESENDREQ_AWAITING" ST_AWAITING && stn "ACTIVE" ST_ACTIVE
+  && rl "INITIATOR" ROLE_INITIATOR && rl "ACCEPTOR" ROLE_ACCEPTOR
+  && mt "HEARTBEAT" MT_HEARTBEAT && mt "TESTREQUEST" MT_TESTREQUEST && mt "RESENDREQUEST" MT_RESENDREQUEST
+  && mt "SEQUENCERESET" MT_SEQUENCERESET && mt "LOGOUT" MT_LOGOUT && mt "LOGON" MT_LOGON
+  && tg "BeginSeqNo" T7 && tg "BeginString" T8 && tg "BodyLength" T9 && tg "CheckSum" T10 && tg "EndSeqNo" T16
+  && tg "MsgSeqNum" T34 && tg "MsgType" T35 && tg "NewSeqNo" T36 && tg "PossDupFlag" T43
+  && tg "SenderCompID" T49 && tg "SendingTime" T52 && tg "TargetCompID" T56 && tg "Text" T58
+  && tg "EncryptMethod" T98 && tg "HeartBtInt" T108 && tg "TestReqID" T112 && tg "OrigSendingTime" T122
+  && tg "GapFillFlag" T123
+  && (sys_maxsize =? I64MAX).
+
+Lemma enums_tied : enums_ok = true.
+Proof. vm_compute. reflexivity. Qed.
